@@ -609,6 +609,37 @@ theorem inferMaybeFloat_eq (s : Bytes) (hne : s.isEmpty = false)
     · simp [hi] at h
     · simp [hi]
 
+/-- The mantissa loop of `readFloat` on a run of decimal digits (no dot seen, none coming). -/
+theorem mantLoop_digits (l : Bytes) (m : ParseFloat.Mant) (hl : l.all isDec = true) (hd : m.sawdot = false) :
+    ParseFloat.mantLoop l m =
+      { m with digits := l.foldl (fun a c => a * 10 + digitVal c) m.digits,
+               nd := m.nd + l.length,
+               sawdigits := m.sawdigits || !l.isEmpty,
+               rest := [] } := by
+  induction l generalizing m with
+  | nil => simp [ParseFloat.mantLoop]
+  | cons c cs ih =>
+    have hc : isDec c = true := by simp only [List.all_cons, Bool.and_eq_true] at hl; exact hl.1
+    have hcs : cs.all isDec = true := by simp only [List.all_cons, Bool.and_eq_true] at hl; exact hl.2
+    have h46 : (c == 46) = false := by simp [isDec] at hc; simp; omega
+    have hdig : ParseFloat.isDigit c = true := by simpa [ParseFloat.isDigit, isDec] using hc
+    have hv : c - 48 = digitVal c := by simp [isDec] at hc; unfold digitVal; simp [hc.2]
+    simp only [ParseFloat.mantLoop, h46, hdig, Bool.false_eq_true, if_false, if_true]
+    rw [ih _ hcs (by simpa using hd)]
+    simp [hv, Nat.add_assoc, Nat.add_comm 1]
+
+theorem parseSat_decimal (s : Bytes) (c : Nat) (r : Bytes) (hb : (splitSign s).2 = c :: r)
+    (hall : (c :: r).all isDec = true) :
+    ParseFloat.parseSat s = some (ParseFloat.roundDecimal (splitSign s).1 (value 10 (c :: r)) 0) := by
+  have hss : ParseFloat.splitSign s = splitSign s := by
+    unfold ParseFloat.splitSign splitSign; split <;> simp_all
+  unfold ParseFloat.parseSat
+  rw [hss, hb]
+  unfold ParseFloat.parseBody
+  rw [mantLoop_digits (c :: r) _ hall rfl]
+  simp [value]
+
+
 theorem byName_string (s : Bytes) : inferByName "inferString" s = inferString s := by simp [inferByName]
 theorem byName_dec (s : Bytes) : inferByName "inferDecimalInt" s = inferDecimalInt s := by simp [inferByName]
 theorem byName_lzdec (s : Bytes) : inferByName "inferLeadingZeroDecimalIntAsInt" s = inferLeadingZeroDecimalIntAsInt s := by simp [inferByName]
@@ -644,17 +675,25 @@ theorem inferWithTable_eq (f : Flag) (tbl : List String) (lz : Bool)
   · -- string
     simp [t0, byName_string, Infer.inferString, Infer.setFromString, strOrVoid]
   · -- decimalInt
+    have hne := nonempty_of_class s (by rw [hc]; decide)
     obtain ⟨c, r, hb, hall⟩ := scanClass_decimalInt s hc
     simp only [t1, byName_dec, Infer.inferDecimalInt, decimal_like s c r hb hall, rangeCheck_eq]
-    simp at h
-    simp [h]
+    by_cases hfit : fitsI64 (signed (splitSign s).1 (value 10 (splitSign s).2)) = true
+    · simp [hfit]
+    · have hps := parseSat_decimal s c r hb hall
+      rw [← hb] at hps
+      simp only [hfit, Bool.false_eq_true, if_false, Bool.not_false, Bool.true_and] at h ⊢
+      simp only [Infer.inferMaybeFloat, ParseFloat.parse, hps]
+      by_cases hinf : F64.isInf (ParseFloat.roundDecimal (splitSign s).1 (value 10 (splitSign s).2) 0) = true
+      · simp [hinf] at h
+      · simp [hinf]
   · -- lzDecimalInt
     have hne := nonempty_of_class s (by rw [hc]; decide)
     obtain ⟨c, r, hb, hall⟩ := scanClass_lzDecimalInt s hc
     rcases hf with hf | hf <;> subst hf <;> subst hlz
     · simp [t2, byName_string, Infer.inferString, Infer.setFromString, hne]
     · have t2' : tbl[ScanType.lzDecimalInt.index]? = some "inferLeadingZeroDecimalIntAsInt" := by simpa using t2
-      simp only [t2', byName_lzdec, Infer.inferLeadingZeroDecimalIntAsInt, Infer.inferDecimalInt,
+      simp only [t2', byName_lzdec, Infer.inferLeadingZeroDecimalIntAsInt,
         decimal_like s c r hb hall, rangeCheck_eq]
       simp at h
       simp [h]
@@ -725,7 +764,9 @@ theorem classify_A (s : Bytes) :
 
 
 theorem inferDecimalInt_ok (s : Bytes) : Infer.inferDecimalInt s ≠ .panic := by
-  unfold Infer.inferDecimalInt; split <;> simp
+  unfold Infer.inferDecimalInt Infer.inferMaybeFloat; split <;> (try split) <;> simp
+theorem inferLzDec_ok (s : Bytes) : Infer.inferLeadingZeroDecimalIntAsInt s ≠ .panic := by
+  unfold Infer.inferLeadingZeroDecimalIntAsInt; split <;> simp
 theorem inferLzOct_ok (s : Bytes) : Infer.inferFromLeadingZeroOctalIntAsInt s ≠ .panic := by
   unfold Infer.inferFromLeadingZeroOctalIntAsInt; split <;> simp
 theorem inferMaybeFloat_ok (s : Bytes) : Infer.inferMaybeFloat s ≠ .panic := by
@@ -756,7 +797,7 @@ theorem inferWithTable_no_panic (tbl : List String) (lz : Bool)
   · simp only [t1, byName_dec]; exact inferDecimalInt_ok s
   · cases lz
     · simp [t2, byName_string, Infer.inferString]
-    · simp only [t2, if_true, byName_lzdec, Infer.inferLeadingZeroDecimalIntAsInt]; exact inferDecimalInt_ok s
+    · simp only [t2, if_true, byName_lzdec]; exact inferLzDec_ok s
   · obtain ⟨x, d0, dr, hb, _⟩ := scanClass_octalInt s hc
     simp only [t3, byName_oct, Infer.inferOctalInt]; exact inferBaseInt_ok 8 s x d0 dr hb
   · cases lz
